@@ -59,7 +59,8 @@ def run(chk):
             if "/m" in tl and tl.endswith(".utb") and "/work-" in tl:
                 inp = [r.choice([97, 98, 99, 100, 32]) for _ in range(r.range(2, 9))]
             else:
-                inp = [c for c in (safety.gen_sentence(r, 28) if i % 2 else safety.gen_input(r, 28)) if c] or [97, 98]
+                # (every fourth input has runs of one repeated character: tables have `repeated' rules for ----, ...., ====)
+                inp = [c for c in (safety.gen_runs(r, 24) if i % 4 == 2 else safety.gen_sentence(r, 28) if i % 2 else safety.gen_input(r, 28)) if c] or [97, 98]
             mode = r.choice([0, 0, 1, 4, 128, 256, 4 | 64])       # no compbrlAtCursor / compbrlLeftCursor
             outlen = r.choice([4 * len(inp) + 10, 4 * len(inp) + 10, r.range(1, len(inp) + 2), len(inp)])
             if tl in multi and i % 2:
